@@ -520,6 +520,40 @@ func famLeaks(e *emitter) {
 	}
 }
 
+// ---- family "bare": modules without singleton and without globals (empty init routines) ----------
+
+func famBare(e *emitter) {
+	for edges := 0; edges < 16; edges++ {
+		for bare := 1; bare < 4; bare++ {
+			for globals := 0; globals < 4; globals++ {
+				g := Graph{Order: []string{"f", "va", "vb"}, Family: "bare"}
+				g.Mods = []Mod{newMod("main", true, Item{Name: "f", Kind: "fn"}), newMod("a", true, Item{Name: "f", Kind: "fn"}), newMod("b", true, Item{Name: "f", Kind: "fn"})}
+				for i := 1; i <= 2; i++ {
+					g.Mods[i].Bare = bare&i != 0
+					if globals&i != 0 {
+						g.Mods[i].Items = append(g.Mods[i].Items, Item{Name: "v" + g.Mods[i].Name, Kind: "let"})
+					}
+				}
+				if edges&4 != 0 {
+					autoImport(&g, 1, "b")
+				}
+				if edges&8 != 0 {
+					autoImport(&g, 2, "a")
+				}
+				var targets []string
+				if edges&1 != 0 {
+					targets = append(targets, "a")
+				}
+				if edges&2 != 0 {
+					targets = append(targets, "b")
+				}
+				autoImport(&g, 0, targets...)
+				e.add(g)
+			}
+		}
+	}
+}
+
 // ---- family "sample": random graphs beyond the enumerated bounds ------------------------------
 
 func famSample(e *emitter, r *fw.Rng, count int) {
@@ -560,6 +594,7 @@ func famSample(e *emitter, r *fw.Rng, count int) {
 				items = append(items, it)
 			}
 			g.Mods = append(g.Mods, newMod(nm, true, items...))
+			g.Mods[mi].Bare = mi > 0 && r.Chance(1, 5)
 		}
 		if disjoint {
 			for _, base := range []string{"f", "g", "v"} {
@@ -645,6 +680,7 @@ func buildCases(tier string, seed uint64) []fw.Case {
 	famPairs(e, false)
 	famPairs(e, true)
 	famLeaks(e)
+	famBare(e)
 	famEdgesNamed(e, []string{"app", "main", "b"}, false, false, false, false)
 	famEdgesNamed(e, []string{"main", "a", "b"}, false, false, false, true)
 	famKinds(e)
